@@ -43,6 +43,15 @@ class Extract:
     line: int = 0
     vis: Optional[str] = None
     optional: bool = False
+    r7: List[int] = field(default_factory=list)          # loop ordinals lowered by R7 (enumerate)
+    r8: List[str] = field(default_factory=list)          # parameters whose Rc<RefCell<..>> is erased (R8)
+    r9: List[str] = field(default_factory=list)          # &str variables whose range indexing becomes str_slice (R9)
+    pubfields: bool = False
+    attrs: List[str] = field(default_factory=list)       # verifier attributes put above the item
+    iternames: Dict[int, str] = field(default_factory=dict)   # loop ordinal -> ghost iterator name (`for x in NAME: e`)
+    closure_ann: Dict[int, Tuple[str, int]] = field(default_factory=dict)   # closure ordinal -> (annotation, sidecar line)
+    assume_body: bool = False                            # body dropped, contract of @sig ASSUMED (trusted border)
+    proved_in: Optional[str] = None                      # `<unit dir>`: the assumed @sig clauses must occur verbatim in that unit's @sig of the same fn
 
 
 @dataclass
@@ -124,6 +133,25 @@ def parse_sidecar(path: str) -> Sidecar:
                     cur_ex.rules += s.split()[1:]
                 elif s.startswith('@r3'):
                     cur_ex.r3 += [int(x) for x in s.split()[1:]]
+                elif s.startswith('@r7'):
+                    cur_ex.r7 += [int(x) for x in s.split()[1:]]
+                elif s.startswith('@r8'):
+                    cur_ex.r8 += s.split()[1:]
+                elif s.startswith('@r9'):
+                    cur_ex.r9 += s.split()[1:]
+                elif s == '@pubfields':
+                    cur_ex.pubfields = True
+                elif s == '@assume_body':
+                    cur_ex.assume_body = True
+                elif s.startswith('@proved_in '):
+                    cur_ex.proved_in = s.split()[1]
+                elif s.startswith('@attr '):
+                    cur_ex.attrs.append(s[6:].strip())
+                elif s.startswith('@itername '):
+                    cur_ex.iternames[int(s.split()[1])] = s.split()[2]
+                elif s.startswith('@closure '):
+                    m = re.match(r'@closure\s+(\d+)\s+(.*)$', s)
+                    cur_ex.closure_ann[int(m.group(1))] = (m.group(2).strip(), i + 1)
                 elif s.startswith('@ret '):
                     cur_ex.ret = s[5:].strip()
                 elif s.startswith('@vis '):
@@ -162,7 +190,36 @@ def parse_sidecar(path: str) -> Sidecar:
         i += 1
     if cur_ex is not None:
         raise SidecarError('%s: unterminated @extract' % path)
+    for ex in [x for x in sc.parts if isinstance(x, Extract) and x.proved_in]:
+        _check_proved_in(path, ex)
     return sc
+
+
+def _clauses_of(text):
+    """normalised top-level clauses of a requires/ensures splice"""
+    body = re.sub(r'//[^\n]*', '', text)
+    body = re.sub(r'(?<![.\w])(requires|ensures)\b', ',', body)
+    return {re.sub(r'\s+', '', c) for c in _split_top(body, angle=False) if c.strip()}
+
+
+def _check_proved_in(path, ex):
+    """cross-unit modularity: a contract ASSUMED here must be, clause for clause, part of the contract PROVED in the
+    named unit for the same function (else the two units have drifted apart -> undecided, never an alarm)"""
+    other = os.path.join(os.path.dirname(os.path.dirname(path)), ex.proved_in, 'unit.vx')
+    osc = parse_sidecar(other)
+    fn = ex.path.split(' :: ')[-1]
+    cand = [x for x in osc.parts if isinstance(x, Extract) and x.path.split(' :: ')[-1] == fn and not x.assume_body]
+    if not cand:
+        raise SidecarError('%s: @proved_in %s: %s is not under contract there' % (path, ex.proved_in, fn))
+    have = set()
+    for sp in cand[0].splices:
+        if sp.kind == 'sig':
+            have |= _clauses_of(sp.text)
+    for sp in ex.splices:
+        if sp.kind == 'sig':
+            missing = _clauses_of(sp.text) - have
+            if missing:
+                raise SidecarError('%s: clause(s) assumed for %s are not proved in unit %s: %s' % (path, fn, ex.proved_in, sorted(missing)))
 
 
 # ---- assembling ----------------------------------------------------------------------------------
@@ -324,6 +381,24 @@ def assemble(sc: Sidecar, mutate=None, canary: Optional[str] = None, plain_only:
                 if o >= len(an0.loops):
                     raise RsxError('anchor-lost: loop#%d not found in %s' % (o, ex.path))
                 edits += R.r3_for_range(text, an0.loops[o], o)
+        if ex.r7:
+            an0 = fn_anatomy(text)
+            for o in ex.r7:
+                if o >= len(an0.loops):
+                    raise RsxError('anchor-lost: loop#%d not found in %s' % (o, ex.path))
+                edits += R.r7_enumerate(text, an0.loops[o], o)
+        if ex.r8:
+            edits += R.r8_refcell(text, ex.r8)
+        if ex.r9:
+            edits += R.r9_str_slice(text, ex.r9)
+        if ex.pubfields:
+            edits += R.pub_fields(text)
+        if ex.assume_body:
+            an0 = fn_anatomy(text)
+            edits.append(R.Edit(an0.body_open, an0.body_close + 1, '{ unimplemented!() }', 'ASSUMED',
+                                'body of %s dropped: the contract spliced at its signature is ASSUMED here (trusted border)' % ex.path))
+            for mm in re.finditer(r'(?<=[(,\s])mut\s+(?=(self\b|[a-z_]\w*\s*:))', text[an0.sig_start:an0.body_open]):
+                edits.append(R.Edit(an0.sig_start + mm.start(), an0.sig_start + mm.end(), '', 'ASSUMED', '`mut` of a by-value parameter dropped from the signature'))
         for bnd in ex.dropbounds:
             m = re.search(re.escape(bnd), text)
             if not m:
@@ -435,7 +510,7 @@ def assemble(sc: Sidecar, mutate=None, canary: Optional[str] = None, plain_only:
                     elif sp.kind == 'loop_start':
                         off = an.loops[o].brace + 1
                         # after an R3 binding inserted right behind the brace
-                        m3 = re.match(r' let \w+ = it%d; it%d \+= 1;' % (o, o), rewritten[off:])
+                        m3 = re.match(r' let \w+ = it%d; (let \w+ = &[^;]+\[it%d\]; )?it%d \+= 1;' % (o, o, o), rewritten[off:])
                         if m3:
                             off += m3.end()
                         ins.append((off, t, 'loop#%d::body-start' % o, sp.line, True))
@@ -465,11 +540,48 @@ def assemble(sc: Sidecar, mutate=None, canary: Optional[str] = None, plain_only:
                     ins.append((off, t, '%s(/%s/)' % (sp.kind, sp.arg), sp.line, True))
             if canary == ex.path and not any(sp.kind == 'sig' for sp in ex.splices):
                 ins.append((an.body_open, '    ensures\n        false, //# canary\n', 'sig', 0, True))
+            # ghost iterator names: `for x in e` -> `for x in NAME: e` (annotation only)
+            for o, nm in ex.iternames.items():
+                if o >= len(an.loops):
+                    raise RsxError('anchor-lost: loop#%d not found in %s' % (o, ex.path))
+                lp = an.loops[o]
+                mh = re.match(r'for\s+.+?\s+in\s+', rewritten[lp.header_start:lp.brace], re.S)
+                if lp.kw != 'for' or not mh:
+                    raise RsxError('anchor-lost: loop#%d of %s is not a `for` loop' % (o, ex.path))
+                ins.append((lp.header_start + mh.end(), '%s: ' % nm, 'itername', 0, False))
+            # closure annotations: parameter types, named result and ensures (annotation only; a non-block body gets braces)
+            if ex.closure_ann:
+                from .rsx import closures as _closures
+                cls = _closures(rewritten)
+                for o, (ann, sline) in ex.closure_ann.items():
+                    if o >= len(cls):
+                        raise RsxError('anchor-lost: closure#%d not found in %s' % (o, ex.path))
+                    c = cls[o]
+                    ma = re.match(r'\|(.*?)\|\s*(->.*)$', ann)
+                    if not ma:
+                        raise SidecarError('%s: bad @closure annotation' % ex.path)
+                    want_params = [x.strip() for x in _split_top(ma.group(1))] if ma.group(1).strip() else []
+                    if len(want_params) != len(c.params):
+                        raise RsxError('anchor-lost: closure#%d of %s has %d parameters, annotation names %d' % (o, ex.path, len(c.params), len(want_params)))
+                    for wp, (pname, pend) in zip(want_params, c.params):
+                        nm, _, ty = wp.partition(':')
+                        if nm.strip() != pname:
+                            raise RsxError('anchor-lost: closure#%d of %s: parameter `%s` is now `%s`' % (o, ex.path, nm.strip(), pname))
+                        if ty.strip():
+                            ins.append((pend, ': ' + ty.strip(), 'closure#%d' % o, sline, False))
+                    ins.append((c.params_end, ' ' + ma.group(2).strip() + (' ' if c.block else ' { '), 'closure#%d' % o, sline, False))
+                    if not c.block:
+                        ins.append((c.body_end, ' }', 'closure#%d' % o, sline, False))
+                    clause_count += 1
         else:
             if ex.splices:
                 raise SidecarError('%s: splices on a non-function item' % ex.path)
         ins.sort(key=lambda x: x[0])
         # ---- emit
+        for a in ex.attrs:
+            b.add(a + '\n', (lambda a: lambda k: LineOrigin('raw', sc.path, ex.line, block='attribute on ' + ex.path, role='attr'))(a))
+        if ex.assume_body:
+            b.add('#[verifier::external_body]\n', lambda k, exl=ex.line, exp=ex.path: LineOrigin('raw', sc.path, exl, block='assumed contract of ' + exp, role='stub'))
         pos = 0
 
         def src_origin(seg_start, ex=ex, rewritten=rewritten, omap=omap, src=src, start=start, first_line=first_line):
@@ -503,7 +615,8 @@ def assemble(sc: Sidecar, mutate=None, canary: Optional[str] = None, plain_only:
                 pre = '' if (pos == 0 or rewritten[pos - 1] == '\n') else '\n'
                 b.add(pre + t, (lambda block, sline, pre, exp: lambda k: LineOrigin('splice', sc.path, sline + k - (1 if pre else 0), fn=exp, block=block))(block, sline, pre, ex.path))
             else:
-                b.add(t, (lambda block, exp: lambda k: LineOrigin('splice', sc.path, 0, fn=exp, block=block))(block, ex.path))
+                # inline annotation: wrapped in marker comments so that the self-check can remove exactly it
+                b.add('/*<*/' + t + '/*>*/', (lambda block, exp: lambda k: LineOrigin('splice', sc.path, 0, fn=exp, block=block))(block, ex.path))
         b.add(rewritten[pos:] + '\n\n', src_origin(pos))
 
     b.add('\n} // verus!\nfn main() {}\n', lambda k: LineOrigin('frame', sc.path, 0))
@@ -517,7 +630,7 @@ def assemble(sc: Sidecar, mutate=None, canary: Optional[str] = None, plain_only:
     for ln, o in zip(text.split('\n'), origins):
         if o.kind in ('src', 'rule'):
             kept_lines.append(ln)
-    got = sig_tokens('\n'.join(kept_lines))
+    got = sig_tokens(re.sub(r'/\*<\*/.*?/\*>\*/', '', '\n'.join(kept_lines)))
     want = []
     for part in plain_parts[1:]:
         want += sig_tokens(part)
@@ -529,6 +642,24 @@ def assemble(sc: Sidecar, mutate=None, canary: Optional[str] = None, plain_only:
     # the `(r: T)` return naming splits a source line: strip those insertions from `got`
     asm.selfcheck_ok = _strip_ret(got, [e.ret for e in sc.parts if isinstance(e, Extract) and e.ret]) == want_noglue if mutate is None else True
     return asm
+
+
+def _split_top(t, angle=True):
+    out, cur, depth = [], '', 0
+    op, cl = ('([{<', ')]}>') if angle else ('([{', ')]}')
+    for ch in t:
+        if ch in op:
+            depth += 1
+        elif ch in cl:
+            depth -= 1
+        if ch == ',' and depth == 0:
+            out.append(cur)
+            cur = ''
+        else:
+            cur += ch
+    if cur.strip():
+        out.append(cur)
+    return out
 
 
 def _fp_ok(fp, header):
